@@ -855,18 +855,27 @@ def tame_aliases(fn):
             attr_stores.add(n.attr)
         elif isinstance(n, (ast.FunctionDef, ast.Lambda)) and n is not fn:
             return {}
+    pairs = []
     for n in ast.walk(fn):
         if isinstance(n, ast.Assign) and len(n.targets) == 1 and isinstance(n.targets[0], ast.Name) and isinstance(n.value, ast.Attribute):
-            x = n.targets[0].id
-            chain, ok = n.value, True
-            while isinstance(chain, ast.Attribute):
-                if chain.attr in attr_stores:
-                    ok = False
-                chain = chain.value
-            if not ok or not isinstance(chain, ast.Name) or chain.id not in params or stores.get(chain.id, 0) or stores.get(x, 0) != 1 or x in params:
-                continue
-            defs[x] = n
-    return {x: n.value for x, n in defs.items()}
+            pairs.append((n.targets[0].id, n.value))
+        elif isinstance(n, ast.Assign) and len(n.targets) == 1 and isinstance(n.targets[0], (ast.Tuple, ast.List)) and isinstance(n.value, (ast.Tuple, ast.List)) \
+                and len(n.targets[0].elts) == len(n.value.elts) and not any(isinstance(x, ast.Starred) for x in list(n.targets[0].elts) + list(n.value.elts)):
+            # `events, paused = self._events, self._paused_events`: element-wise (the right-hand sides are plain reads)
+            if all(isinstance(v, (ast.Attribute, ast.Name, ast.Constant)) for v in n.value.elts):
+                for t, v in zip(n.targets[0].elts, n.value.elts):
+                    if isinstance(t, ast.Name) and isinstance(v, ast.Attribute):
+                        pairs.append((t.id, v))
+    for x, value in pairs:
+        chain, ok = value, True
+        while isinstance(chain, ast.Attribute):
+            if chain.attr in attr_stores:
+                ok = False
+            chain = chain.value
+        if not ok or not isinstance(chain, ast.Name) or chain.id not in params or stores.get(chain.id, 0) or stores.get(x, 0) != 1 or x in params:
+            continue
+        defs[x] = value
+    return dict(defs)
 
 
 def alias_inline(fn, stmts):
